@@ -29,6 +29,32 @@ class Facts:
                 self.inlined += [(cname, a, b) for a, b in rep]
                 if absorbed:
                     c["bodies"] = [b for b in c["bodies"] if b["path"] not in absorbed]
+            # closures that were written inside an absorbed helper now live (through inlining) in the helper's
+            # callers: re-home their root/parent to the inventory function that absorbed the helper
+            absorbed_set = set(self.absorbed.get(cname, []))
+            if absorbed_set:
+                callers = {}
+                for cn_, caller, helper in self.inlined:
+                    if cn_ == cname:
+                        callers.setdefault(helper, set()).add(caller)
+
+                def home(p_, depth=0):
+                    if p_ not in absorbed_set or depth > 6:
+                        return {p_}
+                    out_ = set()
+                    for c_ in callers.get(p_, ()):
+                        c_root = c_.split("::{closure")[0]
+                        out_ |= home(c_root, depth + 1)
+                    return out_ or {p_}
+                for b in c["bodies"]:
+                    if b.get("kind") == "Closure" and b.get("root") in absorbed_set:
+                        homes = sorted(home(b["root"]))
+                        b["root_original"] = b["root"]
+                        b["roots"] = homes
+                        if len(homes) == 1:
+                            b["root"] = homes[0]
+                            if b.get("parent") in absorbed_set:
+                                b["parent"] = homes[0]
             for b in c["bodies"]:
                 b["crate"] = cname
                 self.bodies[(cname, b["path"])] = b
